@@ -475,6 +475,10 @@ func runCase(c Case) (res result) {
 	after := lepx.Walk(root)
 	installed := make([]string, len(c.Plans))
 	nInstalled := 0
+	problemAt := map[string]bool{}
+	for _, pb := range problems {
+		problemAt[pb.Path] = true
+	}
 	for i, pl := range c.Plans {
 		r := results[refs[i].idx]
 		ok := false
@@ -484,6 +488,9 @@ func runCase(c Case) (res result) {
 			ok = r != nil && r.Kind == core.EntryKind_File &&
 				string(r.Digest) == string(lepx.Sha1([]byte(expand(pl.Content))))
 		}
+		// a result equal to the new entry with a problem at the path is a
+		// failed swap between entries of equal digest
+		ok = ok && !problemAt[pl.Path]
 		installed[i] = fmt.Sprint(ok)
 		if ok {
 			nInstalled++
